@@ -287,13 +287,20 @@ Proof.
   - subst o. lia.
 Qed.
 
+Lemma fresh_mono n n1 x : (forall id y, get_block (dur n) id = Some y -> get_block (dur n1) id = Some y) ->
+  fresh n1 x -> fresh n x.
+Proof.
+  intros GB F. unfold fresh in *. destruct (get_block (dur n) (hash_field x)) as [y|] eqn:E; auto.
+  rewrite (GB _ _ E) in F. discriminate.
+Qed.
+
 (** ** orphan-resolution runs: which blocks they add *)
 Lemma run_side_fresh fuel : forall n b lst0 n' last',
   Inv n -> Struct n -> no g = 0 -> U b -> fresh n b ->
   (exists p, stored n p /\ hash_field p = prev b) ->
   (prev b = hash_field (best n) -> no b <> no (best n) + 1) ->
   run_chain apply fuel false n b lst0 = (n', true, last') ->
-  Struct n' /\ stored n' b /\
+  Struct n' /\ stored n' b /\ fresh n last' /\
   (forall x, stored n' x -> fresh n x ->
      no b <= no x /\ no x <= no last' /\
      exists P, linked x P /\ last P x = last' /\ forall c, In c P -> stored n' c) /\
@@ -325,12 +332,13 @@ Proof.
       { eapply (stored_eq n1); eauto. apply GB1. exact Sbest. congruence. }
       unfold fresh in Fb. rewrite <- H in Fb. unfold stored in Sbest. congruence. }
     destruct (IH n2 o b n' last' I2 S2 Hg Uo Fo ltac:(exists b; split; [exact GBb|auto]) Tip2 Hr)
-      as (S' & So & Hfr & _).
+      as (S' & So & Fl2 & Hfr & _).
+    assert (Fl : fresh n last') by (apply (fresh_mono n n2); [exact GB1|exact Fl2]).
     destruct (run_chain_inv apply spent apply_fresh apply_spent U U_inj g f false n2 o b n' true last' I2 Uo ltac:(intros; discriminate) Hr)
       as (I' & _ & _ & _ & GB' & _).
     assert (Sb' : stored n' b) by (apply GB'; exact GBb).
     destruct (Hfr o So Fo) as (_ & Hol & (Po & Pl & Plast & Pst)).
-    split; [exact S'|]. split; [exact Sb'|]. split.
+    split; [exact S'|]. split; [exact Sb'|]. split; [exact Fl|]. split.
     + intros x Sx Fx.
       destruct (fresh_dec n2 x) as [F2|(y & Hy)].
       * destruct (Hfr x Sx F2) as (A & B & C). split; [lia|]. split; auto.
@@ -344,7 +352,7 @@ Proof.
            ++ intros c [<-|Hc]; auto.
     + intros Hnone. exfalso. rewrite <- O1 in Hnone. fold n1 in Hnone. congruence.
   - inversion Hr; subst n' last'; clear Hr.
-    split; [exact S1|]. split; [exact GBb|]. split.
+    split; [exact S1|]. split; [exact GBb|]. split; [exact Fb|]. split.
     + intros x Sx Fx. destruct (Add1 x Sx) as [Sxn| ->].
       * unfold fresh in Fx. unfold stored in Sxn. congruence.
       * split; [lia|]. split; [lia|]. exists []. simpl. split; [exact Logic.I|]. split; [reflexivity|]. intros c [].
@@ -404,6 +412,51 @@ Proof.
       * simpl in L1. destruct E1 as [E1|E1]; [rewrite E1|]; simpl in *; lia.
 Qed.
 
+Lemma height_above_none n k : Inv n -> no (best n) < k -> mainb (dur n) k = None.
+Proof. intros I H. unfold mainb, get_block_by_no, get_hash_by_no. rewrite (i_above _ _ _ _ _ I _ H). reflexivity. Qed.
+
+(** the heights a main-chain run adds hold fresh blocks *)
+Lemma run_main_above fuel : forall n b lst0 n' ok last',
+  Inv n -> Struct n -> no g = 0 -> U b -> fresh n b ->
+  prev b = hash_field (best n) -> no b = no (best n) + 1 ->
+  run_chain apply fuel true n b lst0 = (n', ok, last') ->
+  forall k x, no (best n) < k -> mainb (dur n') k = Some x -> fresh n x.
+Proof.
+  induction fuel as [|f IH]; intros n b lst0 n' ok last' I S Hg Ub Fb Hp Hn Hr k x Hk Hx; simpl in Hr.
+  - inversion Hr; subst. rewrite (height_above_none _ _ I Hk) in Hx. discriminate.
+  - destruct (connect_main apply n b) as [n1|] eqn:Ec.
+    2:{ inversion Hr; subst. rewrite (height_above_none _ _ I Hk) in Hx. discriminate. }
+    destruct (connect_main_inv apply spent apply_fresh apply_spent U U_inj g _ _ _ I Ub Hp Hn Ec) as (I1 & B1 & O1 & _ & _ & GB1 & GBb).
+    pose proof (struct_connect_main n b n1 I S Ub Fb Hg Hp Hn Ec) as S1.
+    assert (Base : forall k x, no (best n) < k -> mainb (dur n1) k = Some x -> fresh n x).
+    { intros k0 x0 Hk0 Hx0. destruct (N.eq_dec k0 (no b)) as [->|Hne].
+      - pose proof (i_best _ _ _ _ _ I1) as Hbb. rewrite B1 in Hbb. rewrite Hbb in Hx0. inversion Hx0; subst. exact Fb.
+      - rewrite (height_above_none n1 k0 I1) in Hx0; [discriminate|]. rewrite B1. lia. }
+    unfold resolve_orphan in Hr.
+    destruct (find_orphan (orphans n1) (hash_field b)) as [o|] eqn:Ef.
+    2:{ inversion Hr; subst. eapply Base; eauto. }
+    destruct (no b + 1 =? no o) eqn:En.
+    2:{ inversion Hr; subst. eapply Base; eauto. }
+    apply N.eqb_eq in En. destruct (find_orphan_In _ _ _ Ef) as (Hin & Hpo).
+    assert (Uo : U o) by (apply (i_orph _ _ _ _ _ I1); exact Hin).
+    set (n2 := set_orphans n1 (remove_orphan (orphans n1) (hash_field b))) in *.
+    assert (I2 : Inv n2).
+    { apply inv_set_orphans; auto. intros y Hy. apply (i_orph _ _ _ _ _ I1). eapply remove_orphan_In; eauto. }
+    assert (S2 : Struct n2) by (apply struct_set_orphans; exact S1).
+    assert (Fo : fresh n2 o).
+    { change (fresh n1 o).
+      apply (orphan_child_fresh n n1 b o I S I1 Hg Ub Uo Fb GBb); auto; try lia.
+      - intros y Hy. apply GB1. exact Hy.
+      - intros id y Hy. apply (connect_main_added n b n1 _ _ Ec Hy). }
+    assert (Hp2 : prev o = hash_field (best n2)) by (simpl; rewrite B1; exact Hpo).
+    assert (Hn2 : no o = no (best n2) + 1) by (simpl; rewrite B1; lia).
+    pose proof (run_chain_ext apply spent apply_fresh apply_spent U U_inj g f true n2 o b n' ok last' I2 Uo ltac:(intros _; split; assumption) Hr)
+      as (_ & E2 & _).
+    destruct (N.le_gt_cases k (no (best n2))) as [Hle|Hgt].
+    + rewrite E2 in Hx by exact Hle. eapply Base; eauto.
+    + apply (fresh_mono n n2); [exact GB1|]. eapply (IH n2 o b n' ok last'); eauto.
+Qed.
+
 (** ** helpers about gather / reorg *)
 Lemma gather_of_branch n f L L' top : Inv n ->
   mainb (dur n) (no f) = Some f -> no f < no (best n) ->
@@ -415,9 +468,9 @@ Proof.
   assert (Hd : dlinked top (rev L' ++ [f])) by (eapply linked_dlinked; eauto).
   assert (ACC : acc_ok (dur n) (no (best n)) top top [] []).
   { unfold acc_ok. repeat split; simpl; auto; try contradiction.
-    - apply Hst. subst L. apply in_or_app. right. left. reflexivity.
-    - intros (k & H1 & H2 & _). lia.
-    - intros H. exfalso. apply H. reflexivity. }
+    all: try (apply Hst; subst L; apply in_or_app; right; left; reflexivity).
+    all: try (intros (k & H1 & H2 & _); lia).
+    all: try (intros H; exfalso; apply H; reflexivity). }
   destruct (gather_exact U (dur n) (no (best n)) (fun id x H => inv_stored_U apply spent U g n id x I H)
               (main_total _ _ _ _ _ I)
               (rev L' ++ [f]) top top [] [] f ACC Hd) as (olds & G).
@@ -446,7 +499,7 @@ Lemma reorg_cases n top n' err :
         gather (S (N.to_nat (no top))) (dur n) (no (best n)) top [] [] = Some (st, news, olds) /\ no st < lib n)) \/
   (err = false /\ best n' = top /\ lib n' = lib n /\ orphans n' = orphans n /\
    (forall id, dur n' (KBlock id) = dur n (KBlock id)) /\
-   exists st news olds, mainb (dur n) (no st) = Some st /\ lib n <= no st /\ no st < no (best n) /\
+   exists st news, mainb (dur n) (no st) = Some st /\ lib n <= no st /\ no st < no (best n) /\
      linked st (rev news) /\ valid_chain apply (root st) (rev news) /\
      (forall c, In c news -> stored n c) /\
      (forall k, k <= no st -> mainb (dur n') k = mainb (dur n) k) /\
@@ -476,12 +529,289 @@ Proof.
       destruct (swap_chain_reads n2 m top news olds st Glink) as (Rb & _ & Ro & _ & Rlib & _ & _ & _ & RB & _) end.
     split; [reflexivity|]. split; [exact Rb|]. split; [rewrite Rlib; exact Flib|]. split; [rewrite Ro; exact Fo|].
     split; [intros id; rewrite RB; apply Ff; intros; discriminate|].
-    exists st, news, olds. repeat split; auto.
+    exists st, news. repeat split; auto.
     + apply Mnews.
     + apply Mnews.
   - inversion R; subst n' err; clear R. left. simpl. repeat split; auto.
     + symmetry. apply (i_sdb _ _ _ _ _ I).
     + intros; discriminate.
+Qed.
+
+(** ** the invariant step *)
+Lemma longest_frame n n' :
+  (forall id, dur n' (KBlock id) = dur n (KBlock id)) -> (forall k, dur n' (KHeight k) = dur n (KHeight k)) ->
+  best n' = best n -> lib n' = lib n -> Longest n -> Longest n'.
+Proof.
+  intros HB HH Hb Hl HL t (f & L & L' & Hf & Hfle & Hlib & Hlk & EL & Hst & Hv).
+  rewrite Hb. apply HL. exists f, L, L'.
+  assert (GBe : forall id, get_block (dur n') id = get_block (dur n) id) by (intros; apply get_block_ext; auto).
+  assert (Me : forall k, mainb (dur n') k = mainb (dur n) k) by (intros; apply mainb_ext; auto).
+  rewrite Me in Hf. rewrite Hb in Hfle. rewrite Hl in Hlib.
+  repeat split; auto. intros c Hc. rewrite <- GBe. apply Hst. exact Hc.
+Qed.
+Lemma struct_frame n n' :
+  (forall id, dur n' (KBlock id) = dur n (KBlock id)) -> best n' = best n -> Struct n -> Struct n'.
+Proof.
+  intros HB Hb S.
+  assert (GBe : forall x, stored n' x <-> stored n x).
+  { intros x. unfold stored. rewrite (get_block_ext (dur n) (dur n')) by auto. tauto. }
+  constructor.
+  - intros x Sx. apply GBe in Sx. destruct (s_parent _ S x Sx) as [->|(p & Sp & Hp)]; auto.
+    right. exists p. split; auto. apply GBe. exact Sp.
+  - rewrite Hb. intros x Sx. apply GBe in Sx. apply (s_tip _ S x Sx).
+Qed.
+
+(** a witness in the new state whose tip is an old block and whose fork point lies on the old
+    main chain is a witness in the old state *)
+Lemma old_witness n n1 t : Inv n -> Struct n -> Inv n1 -> no g = 0 -> Longest n ->
+  (forall y, stored n y -> stored n1 y) ->
+  (forall k, k <= no (best n) -> mainb (dur n1) k = mainb (dur n) k) -> lib n1 = lib n ->
+  forall f L L', mainb (dur n1) (no f) = Some f -> no f <= no (best n) -> lib n1 <= no f ->
+    linked f L -> L = L' ++ [t] -> (forall c, In c L -> stored n1 c) -> valid_chain apply (root f) L ->
+    stored n t -> no t <= no (best n).
+Proof.
+  intros I S I1 Hg HL Hmono HM Hlib f L L' Hf Hfle Hl Hlk EL Hst Hv St.
+  apply HL. exists f, L, L'. rewrite HM in Hf by exact Hfle. rewrite Hlib in Hl.
+  repeat split; auto.
+  eapply (old_tip_all_old n n1 I S I1 Hg Hmono L L' f t); eauto.
+Qed.
+
+Lemma in_last_app {A} (L' : list A) t : In t (L' ++ [t]).
+Proof. apply in_or_app. right. left. reflexivity. Qed.
+
+Theorem longest_step n b :
+  Inv n -> Struct n -> Longest n -> no g = 0 -> U b -> (f27 = true \/ no b <> 0) ->
+  (snd (add_block apply true f27 orphan_cap n b) = RErr -> find_orphan (orphans n) (hash_field b) = None) ->
+  Struct (fst (add_block apply true f27 orphan_cap n b)) /\ Longest (fst (add_block apply true f27 orphan_cap n b)).
+Proof.
+  intros I S HL Hg Ub Hn0 Hgood. unfold add_block in *.
+  destruct (mem (hash_field b) (bad n)); [split; assumption|].
+  destruct (get_block (dur n) (hash_field b)) as [bb|] eqn:Efresh; [split; assumption|].
+  assert (Fb : fresh n b) by exact Efresh.
+  assert (Core : Struct (fst (fst (add_block_internal apply true f27 orphan_cap n b))) /\
+                 Longest (fst (fst (add_block_internal apply true f27 orphan_cap n b)))).
+  { unfold add_block_internal in *.
+    destruct (get_block (dur n) (prev b)) as [p|] eqn:Ep.
+    2:{ simpl. split.
+        - destruct S. constructor; auto.
+        - eapply (longest_frame n); eauto. }
+    destruct (inv_stored_U apply spent U g n _ _ I Ep) as (Up & Hph).
+    assert (Sp : stored n p) by (unfold stored; rewrite Hph; exact Ep).
+    destruct (is_main_chain f27 n b) as [main|] eqn:Em; [|split; assumption].
+    destruct (run_chain apply (Datatypes.S (length (orphans n))) main n b b) as [[n1 ok] last] eqn:RC.
+    destruct main.
+    - (* main-chain run *)
+      destruct (is_main_chain_true apply f27 spent U g n b I Em Hn0) as (Hp & Hn).
+      destruct (run_main_fresh _ _ _ _ _ _ _ I S Hg Ub Fb Hp Hn RC) as (S1 & Hfr).
+      pose proof (run_main_above _ _ _ _ _ _ _ I S Hg Ub Fb Hp Hn RC) as Habove.
+      destruct (run_chain_inv apply spent apply_fresh apply_spent U U_inj g _ true _ _ _ _ _ _ I Ub ltac:(intros _; split; assumption) RC)
+        as (I1 & _ & L1 & _ & GB1 & _).
+      pose proof (run_chain_ext apply spent apply_fresh apply_spent U U_inj g _ true _ _ _ _ _ _ I Ub ltac:(intros _; split; assumption) RC)
+        as (E1 & E2 & _ & El).
+      assert (Hble : no (best n) <= no (best n1)) by (destruct E1 as [->|]; lia).
+      assert (HL1 : Longest n1).
+      { intros t (f & L & L' & Hf & Hfle & Hlib & Hlk & EL & Hst & Hv).
+        assert (St1 : stored n1 t) by (apply Hst; rewrite EL; apply in_last_app).
+        destruct (fresh_dec n t) as [Ft|(y & Hy)].
+        - apply Hfr; auto.
+        - assert (St : stored n t).
+          { apply not_fresh_stored; eauto using stored_U. unfold fresh. rewrite Hy. discriminate. }
+          destruct (N.le_gt_cases (no f) (no (best n))) as [Hle|Hgt].
+          + pose proof (old_witness n n1 t I S I1 Hg HL (fun y Hy0 => GB1 _ _ Hy0) E2 El f L L' Hf Hle Hlib Hlk EL Hst Hv St). lia.
+          + exfalso. pose proof (Habove _ _ Hgt Hf) as Ff.
+            assert (Hall : forall x, In x L -> stored n x).
+            { eapply (old_tip_all_old n n1 I S I1 Hg (fun y Hy0 => GB1 _ _ Hy0) L L' f t); eauto. }
+            destruct L as [|c1 L2]; [destruct L'; discriminate|].
+            destruct Hlk as (H1 & H2 & _).
+            assert (Sc1 : stored n c1) by (apply Hall; left; reflexivity).
+            destruct (s_parent _ S c1 Sc1) as [->|(q & Sq & Hq)]; [lia|].
+            assert (q = f).
+            { eapply (stored_eq n1); eauto. apply GB1. exact Sq. eapply main_stored; eauto. congruence. }
+            subst q. unfold fresh in Ff. unfold stored in Sq. congruence. }
+      destruct ok; simpl; auto.
+    - (* side-branch run *)
+      assert (Htip : prev b = hash_field (best n) -> no b <> no (best n) + 1).
+      { intros E. unfold is_main_chain in Em. rewrite (best_hash _ _ _ _ _ I) in Em.
+        destruct ((f27 || (0 <? no b)) && negb (no b =? no (best n) + 1)) eqn:E2.
+        - apply andb_true_iff in E2. destruct E2 as (_ & E2). apply negb_true_iff in E2. apply N.eqb_neq in E2. exact E2.
+        - inversion Em as [E3]. apply N.eqb_neq in E3. contradiction. }
+      destruct ok.
+      2:{ (* the run stopped with an error: impossible unless an orphan was parked on b *)
+          exfalso. simpl in Hgood. specialize (Hgood eq_refl).
+          simpl in RC. unfold resolve_orphan in RC. simpl orphans in RC. rewrite Hgood in RC. inversion RC. }
+      destruct (run_side_fresh _ _ _ _ _ _ I S Hg Ub Fb (ex_intro _ p (conj Sp Hph)) Htip RC) as (S1 & Sb1 & Flast & Hfr & Honly).
+      destruct (run_chain_inv apply spent apply_fresh apply_spent U U_inj g _ false _ _ _ _ _ _ I Ub ltac:(intros; discriminate) RC)
+        as (I1 & _ & L1 & Hb1 & GB1 & Hlast).
+      specialize (Hb1 eq_refl). destruct (Hlast eq_refl) as (Ul & Sl).
+      pose proof (run_chain_ext apply spent apply_fresh apply_spent U U_inj g _ false _ _ _ _ _ _ I Ub ltac:(intros; discriminate) RC)
+        as (_ & E2 & _ & El).
+      (* every available tip after the run is below the old best or fresh *)
+      assert (P1 : forall t, avail n1 t -> no t <= no (best n) \/ (stored n1 t /\ fresh n t)).
+      { intros t (f & L & L' & Hf & Hfle & Hlib & Hlk & EL & Hst & Hv).
+        assert (St1 : stored n1 t) by (apply Hst; rewrite EL; apply in_last_app).
+        destruct (fresh_dec n t) as [Ft|(y & Hy)]; [right; auto|]. left.
+        assert (St : stored n t).
+        { apply not_fresh_stored; eauto using stored_U. unfold fresh. rewrite Hy. discriminate. }
+        rewrite Hb1 in Hfle.
+        eapply (old_witness n n1 t I S I1 Hg HL (fun y Hy0 => GB1 _ _ Hy0) E2 El f L L'); eauto. }
+      simpl negb. rewrite andb_true_l.
+      destruct (no (best n1) <? no last) eqn:Elt.
+      2:{ apply N.ltb_ge in Elt. simpl. split; [exact S1|].
+          intros t Ha. destruct (P1 t Ha) as [H|(St & Ft)]; [rewrite Hb1; exact H|].
+          destruct (Hfr t St Ft) as (_ & H & _). lia. }
+      apply N.ltb_lt in Elt.
+      assert (Elt' : no (best n) < no last) by (rewrite <- Hb1; exact Elt).
+      destruct (reorg apply true n1 last) as [n2 err] eqn:R.
+      destruct (reorg_cases n1 last n2 err I1 Ul Sl Elt R)
+        as [(Rb & Rl & Ro & Rs & Rf & Rveto)|(Rerr & Rb & Rl & Ro & RB & st & news & Gst & Glib & Gstlt & Glink & Gv & Gstored & Mold & Mnews)].
+      + (* the chain DB is unchanged *)
+        assert (HB : forall id, dur n2 (KBlock id) = dur n1 (KBlock id)) by (intros; apply Rf; intros; discriminate).
+        assert (HH : forall k, dur n2 (KHeight k) = dur n1 (KHeight k)) by (intros; apply Rf; intros; discriminate).
+        assert (HL1 : Longest n1).
+        { intros t Ha. destruct (P1 t Ha) as [H|(St & Ft)]; [rewrite Hb1; exact H|].
+          destruct (N.le_gt_cases (no t) (no (best n1))) as [Hle|Hgt]; auto. exfalso.
+          destruct (avail_normal n1 t I1 S1 Ha) as [H|(f & L & L' & Hf & Hflt & Hlib & Hlk & EL & Hst & Hnm & Hv)]; [lia|].
+          destruct err.
+          - (* an error: then no orphan had been parked on b, the run is just b *)
+            simpl in Hgood. specialize (Hgood eq_refl).
+            assert (t = b) by (apply Honly; auto). subst t.
+            simpl in RC. unfold resolve_orphan in RC. simpl orphans in RC. rewrite Hgood in RC. inversion RC; subst n1 last.
+            destruct (reorg_switches apply spent apply_fresh apply_spent U U_inj g (store_side n b) f L L' b I1 Hf Hflt Hlib Hlk EL Hst Hnm Hv Hgt)
+              as (n3 & R3 & Hb3 & _).
+            rewrite R3 in R. inversion R.
+          - (* no error and no switch: the LIB veto; but the branch forks at f >= LIB *)
+            destruct (Rveto eq_refl) as (st & news & olds & G & Hveto).
+            destruct (Hfr t St Ft) as (_ & Htl & P & Pl & Plast & Pst).
+            assert (Ebranch : exists Lx, L ++ P = Lx ++ [last]).
+            { destruct P as [|z P0] using rev_ind.
+              - simpl in Plast. subst last. exists L'. rewrite app_nil_r. exact EL.
+              - rewrite last_last in Plast. subst z. exists (L ++ P0). rewrite app_assoc. reflexivity. }
+            destruct Ebranch as (Lx & ELx).
+            assert (Hlk2 : linked f (L ++ P)).
+            { apply linked_app. split; auto. rewrite EL, last_last. exact Pl. }
+            destruct (gather_of_branch n1 f (L ++ P) Lx last I1 Hf Hflt Hlk2 ELx) as (olds2 & G2).
+            + intros c Hc. apply in_app_or in Hc. destruct Hc; auto.
+            + intros c m0 Hc Hle. apply in_app_or in Hc. destruct Hc as [Hc|Hc]; [apply Hnm; auto|].
+              pose proof (linked_no_gt _ _ _ Pl Hc). lia.
+            + exact Elt.
+            + rewrite G2 in G. inversion G; subst st. lia. }
+        assert (S2 : Struct n2) by (eapply struct_frame; eauto).
+        assert (HL2 : Longest n2) by (eapply longest_frame; eauto).
+        destruct err; simpl; auto.
+      + (* the branch has been installed: best = last *)
+        subst err. simpl.
+        assert (GBe : forall x, stored n2 x <-> stored n1 x).
+        { intros x. unfold stored. rewrite (get_block_ext (dur n1) (dur n2)) by auto. tauto. }
+        split.
+        * constructor.
+          -- intros x Sx. apply GBe in Sx. destruct (s_parent _ S1 x Sx) as [->|(q & Sq & Hq)]; auto.
+             right. exists q. split; auto. apply GBe. exact Sq.
+          -- rewrite Rb. intros x Sx Hpx. apply GBe in Sx.
+             destruct (fresh_dec n x) as [Fx|(y & Hy)].
+             ++ destruct (Hfr x Sx Fx) as (_ & H & _). lia.
+             ++ assert (Sxn : stored n x).
+                { apply not_fresh_stored; eauto using stored_U. unfold fresh. rewrite Hy. discriminate. }
+                destruct (s_parent _ S x Sxn) as [->|(q & Sq & Hq)]; [lia|]. exfalso.
+                assert (q = last) by (eapply (stored_eq n1); eauto; [apply GB1; exact Sq|congruence]).
+                subst q. unfold fresh in Flast. unfold stored in Sq. congruence.
+        * intros t (f & L & L' & Hf & Hfle & Hlib & Hlk & EL & Hst & Hv).
+          rewrite Rb in *.
+          assert (Conc : avail n1 t -> no t <= no last).
+          { intros Ha. destruct (P1 t Ha) as [H|(St & Ft)]; [lia|].
+            destruct (Hfr t St Ft) as (_ & H & _). exact H. }
+          assert (Hst1 : forall c, In c L -> stored n1 c) by (intros c Hc; apply GBe; apply Hst; exact Hc).
+          destruct (N.le_gt_cases (no f) (no st)) as [Hle|Hgt].
+          -- apply Conc. exists f, L, L'. rewrite Mold in Hf by exact Hle. rewrite Rl in Hlib.
+             repeat split; auto. lia.
+          -- assert (Hfin : In f (rev news)).
+             { rewrite <- in_rev. apply Mnews. exists (no f). auto. }
+             apply in_split in Hfin. destruct Hfin as (A & B & EAB).
+             rewrite EAB in Glink, Gv.
+             apply linked_app in Glink. destruct Glink as (GlA & GlB).
+             apply valid_chain_app in Gv. destruct Gv as (GvA & GvB).
+             apply Conc. exists st, ((A ++ [f]) ++ L), ((A ++ [f]) ++ L').
+             split; [exact Gst|]. split; [lia|]. split; [exact Glib|]. split.
+             ++ apply linked_app. split.
+                ** apply linked_app. split; auto. simpl in GlB. simpl. tauto.
+                ** rewrite last_last. exact Hlk.
+             ++ split; [rewrite EL, app_assoc; reflexivity|]. split.
+                ** intros c Hc. apply in_app_or in Hc. destruct Hc as [Hc|Hc]; [|apply Hst1; exact Hc].
+                   apply Gstored. rewrite in_rev, EAB. apply in_app_or in Hc. apply in_or_app.
+                   destruct Hc as [Hc|[<-|[]]]; [left; auto|right; left; reflexivity].
+                ** apply valid_chain_app. split.
+                   --- apply valid_chain_app. split; auto. simpl in GvB. simpl. tauto.
+                   --- rewrite end_root_last_block. exact Hv. }
+  destruct (add_block_internal apply true f27 orphan_cap n b) as [[n1 r] c].
+  simpl in Core. destruct Core as (C1 & C2).
+  destruct r; simpl; auto. destruct c; simpl; auto.
+  split.
+  - destruct C1. constructor; auto.
+  - eapply (longest_frame n1); eauto.
+Qed.
+
+(** ** histories *)
+Definition good_arrival (n : node) (lb : N * block) : Prop :=
+  lib n <= fst lb /\ U (snd lb) /\ (f27 = true \/ no (snd lb) <> 0) /\
+  (snd (add_block apply true f27 orphan_cap (set_lib n (fst lb)) (snd lb)) = RErr ->
+   find_orphan (orphans n) (hash_field (snd lb)) = None).
+
+(** every arrival reports a LIB at least as high as before (monotone input stream), delivers a
+    block of U, and - the hypothesis that excludes the known finding - an arrival that pulls parked
+    orphans in does not end in an error *)
+Fixpoint good_history (n : node) (l : list (N * block)) : Prop :=
+  match l with
+  | [] => True
+  | lb :: r => good_arrival n lb /\ good_history (arrive apply true f27 orphan_cap n lb) r
+  end.
+
+Lemma longest_set_lib n l : lib n <= l -> Longest n -> Longest (set_lib n l).
+Proof.
+  intros Hl HL t (f & L & L' & Hf & Hfle & Hlib & Hlk & EL & Hst & Hv).
+  apply (HL t). exists f, L, L'. simpl in *. repeat split; auto. lia.
+Qed.
+Lemma struct_set_lib n l : Struct n -> Struct (set_lib n l).
+Proof. intros S. destruct S. constructor; auto. Qed.
+
+Theorem longest_history l : forall n,
+  Inv n -> Struct n -> Longest n -> no g = 0 -> good_history n l ->
+  Inv (history apply true f27 orphan_cap n l) /\ Struct (history apply true f27 orphan_cap n l) /\
+  Longest (history apply true f27 orphan_cap n l).
+Proof.
+  induction l as [|lb r IH]; intros n I S HL Hg Hgood; simpl; auto.
+  destruct Hgood as ((Hl & Ub & Hn0 & Herr) & Hrest).
+  apply IH; auto.
+  - unfold arrive. apply (add_block_inv apply orphan_cap f27 spent apply_fresh apply_spent U U_inj g); auto.
+    apply inv_set_lib. exact I.
+  - unfold arrive. apply longest_step; auto.
+    + apply inv_set_lib. exact I.
+    + apply struct_set_lib. exact S.
+    + apply longest_set_lib; auto.
+  - unfold arrive. apply longest_step; auto.
+    + apply inv_set_lib. exact I.
+    + apply struct_set_lib. exact S.
+    + apply longest_set_lib; auto.
+Qed.
+
+Lemma init_blocks id x : txs g = [] -> get_block (dur (init_node g)) id = Some x -> x = g.
+Proof.
+  intros Htx. unfold get_block, init_node. simpl dur. unfold replay. simpl fold_left.
+  unfold apply_unit. rewrite !apply_ops_lookup. unfold connect_unit. rewrite Htx.
+  cbn [u_ops tx_ops lookup_ops state_unit fst snd dkey_eqb].
+  destruct (hash_field g =? id); [|discriminate].
+  destruct (hash_field g =? id); intros H; inversion H; reflexivity.
+Qed.
+
+Theorem longest_init : no g = 0 -> txs g = [] -> Struct (init_node g) /\ Longest (init_node g).
+Proof.
+  intros Hg Htx. split.
+  - constructor.
+    + intros x Sx. left. eapply init_blocks; eauto.
+    + intros x Sx _. assert (x = g) by (eapply init_blocks; eauto). subst x. simpl. lia.
+  - intros t (f & L & L' & Hf & Hfle & Hlib & Hlk & EL & Hst & Hv).
+    destruct L as [|c L2]; [destruct L'; discriminate|].
+    destruct Hlk as (_ & H2 & _).
+    assert (c = g) by (eapply init_blocks; eauto; apply Hst; left; reflexivity).
+    subst c. lia.
 Qed.
 
 End Longest.
